@@ -404,13 +404,46 @@ func classify(consts []int64, eval func(int64) bool) string {
 	return ""
 }
 
-// classesAllowed lists, for the scanners the grammar defines, the only classes they may use.
-var classesAllowed = map[string][]string{
-	"lexer.Lexer.Next":               {"NOT_WS", "WS", "DIGIT", "ALPHA_"},
-	"lexer.Lexer.numberLiteral":      {"DIGIT"},
-	"lexer.Lexer.unquotedIdentifier": {"ALNUM_"},
-	"lexer.Lexer.variable":           {"ALPHA_", "ALNUM_"},
-	"parser.parseQuotedIdentifier":   {"DIGIT", "HEXLO", "HEXUP"},
+// classesAllowed lists, for the scanners the grammar defines, the only classes they may use: outside any loop
+// (the test that admits the first character) and inside a loop (the test that continues the token).
+type classRole struct{ first, rest []string }
+
+var classesAllowed = map[string]classRole{
+	"lexer.Lexer.Next":               {first: []string{"DIGIT", "ALPHA_"}, rest: []string{"NOT_WS", "WS"}},
+	"lexer.Lexer.numberLiteral":      {rest: []string{"DIGIT"}},
+	"lexer.Lexer.unquotedIdentifier": {rest: []string{"ALNUM_"}},
+	"lexer.Lexer.variable":           {first: []string{"ALPHA_"}, rest: []string{"ALNUM_"}},
+	"parser.parseQuotedIdentifier":   {first: []string{"DIGIT", "HEXLO", "HEXUP"}, rest: []string{"DIGIT", "HEXLO", "HEXUP"}},
+}
+
+// helperPredicate recognises `func f(r rune) bool { return <comparison-only predicate on r> }` and returns its class.
+func helperPredicate(p *Program, pk *packages.Package, call *ast.CallExpr) (string, bool) {
+	f, ok := calleeObj(pk, call).(*types.Func)
+	if !ok || len(call.Args) != 1 {
+		return "", false
+	}
+	for _, q := range p.Pkgs {
+		if q.Types != f.Pkg() {
+			continue
+		}
+		for _, fd := range p.FuncDecls(q) {
+			if q.TypesInfo.Defs[fd.Name] != f || len(fd.Body.List) != 1 {
+				continue
+			}
+			ret, ok := fd.Body.List[0].(*ast.ReturnStmt)
+			if !ok || len(ret.Results) != 1 {
+				return "", false
+			}
+			if _, consts, eval, leaves, ok := purePred(q, ret.Results[0]); ok && leaves >= 1 {
+				cl := classify(consts, eval)
+				if cl == "" {
+					cl = "?"
+				}
+				return cl, true
+			}
+		}
+	}
+	return "", false
 }
 
 func rulePCharClass(p *Program, r *Reporter) {
@@ -419,15 +452,40 @@ func rulePCharClass(p *Program, r *Reporter) {
 		p.inspectFuncs(pk, func(fd *ast.FuncDecl) {
 			fname := pk.Name + "." + DeclName(fd)
 			n := 0
-			var visit func(e ast.Expr)
-			visit = func(e ast.Expr) {
+			report := func(pos token.Pos, what, cl string, inLoop bool, src string) {
+				n++
+				seenFn[fname] = true
+				key := fmt.Sprintf("%s pred(%s)#%d", fname, what, n)
+				if cl == "" || cl == "?" {
+					r.Bad(pos, key, "predicate `"+src+"` accepts a set that is none of the grammar's character classes")
+					return
+				}
+				if role, ok := classesAllowed[fname]; ok {
+					allowed := role.first
+					where := "to admit a first character"
+					if inLoop {
+						allowed = role.rest
+						where = "to continue a token"
+					}
+					good := false
+					for _, a := range allowed {
+						if a == cl {
+							good = true
+						}
+					}
+					if !good {
+						r.Bad(pos, key, "class "+cl+" is used "+where+" here; the grammar allows "+strings.Join(allowed, ",")+" in that position of this scanner")
+						return
+					}
+				}
+				r.OK(pos, key, "accepts exactly "+cl)
+			}
+			var visit func(e ast.Expr, inLoop bool)
+			visit = func(e ast.Expr, inLoop bool) {
 				switch x := ast.Unparen(e).(type) {
 				case *ast.BinaryExpr:
 					if x.Op == token.LAND || x.Op == token.LOR {
 						if opnd, consts, eval, leaves, ok := purePred(pk, x); ok && leaves >= 2 {
-							n++
-							seenFn[fname] = true
-							key := fmt.Sprintf("%s pred(%s)#%d", fname, opnd, n)
 							cl := classify(consts, eval)
 							if cl == "" {
 								var acc []string
@@ -436,50 +494,63 @@ func rulePCharClass(p *Program, r *Reporter) {
 										acc = append(acc, fmt.Sprintf("%q", rune(v)))
 									}
 								}
-								r.Bad(x.Pos(), key, "predicate `"+exprStr(x)+"` accepts a set that is none of the grammar's character classes; ASCII members: "+strings.Join(acc, ""))
+								n++
+								seenFn[fname] = true
+								r.Bad(x.Pos(), fmt.Sprintf("%s pred(%s)#%d", fname, opnd, n), "predicate `"+exprStr(x)+"` accepts a set that is none of the grammar's character classes; ASCII members: "+strings.Join(acc, ""))
 								return
 							}
-							if allowed, ok := classesAllowed[fname]; ok {
-								good := false
-								for _, a := range allowed {
-									if a == cl {
-										good = true
-									}
-								}
-								if !good {
-									r.Bad(x.Pos(), key, "class "+cl+" is not one this scanner may use (allowed: "+strings.Join(allowed, ",")+")")
-									return
-								}
-							}
-							r.OK(x.Pos(), key, "accepts exactly "+cl)
+							report(x.Pos(), opnd, cl, inLoop, exprStr(x))
 							return
 						}
-						visit(x.X)
-						visit(x.Y)
+						visit(x.X, inLoop)
+						visit(x.Y, inLoop)
 					}
 				case *ast.UnaryExpr:
-					visit(x.X)
+					visit(x.X, inLoop)
+				case *ast.CallExpr:
+					if cl, ok := helperPredicate(p, pk, x); ok {
+						report(x.Pos(), exprStr(x.Fun)+"()", cl, inLoop, exprStr(x))
+					}
 				}
 			}
-			ast.Inspect(fd.Body, func(nd ast.Node) bool {
-				switch s := nd.(type) {
-				case *ast.IfStmt:
-					visit(s.Cond)
-				case *ast.ForStmt:
-					if s.Cond != nil {
-						visit(s.Cond)
+			var walk func(n ast.Node, inLoop bool)
+			walk = func(n ast.Node, inLoop bool) {
+				ast.Inspect(n, func(nd ast.Node) bool {
+					switch s := nd.(type) {
+					case *ast.ForStmt:
+						if s == n {
+							return true
+						}
+						if s.Cond != nil {
+							visit(s.Cond, true)
+						}
+						walk(s.Body, true)
+						return false
+					case *ast.RangeStmt:
+						if s == n {
+							return true
+						}
+						walk(s.Body, true)
+						return false
+					case *ast.IfStmt:
+						visit(s.Cond, inLoop)
+					case *ast.AssignStmt:
+						for _, e := range s.Rhs {
+							visit(e, inLoop)
+						}
+					case *ast.ReturnStmt:
+						// the body of a helper predicate itself is classified where it is used
+						if len(fd.Body.List) == 1 && fd.Body.List[0] == ast.Stmt(s) {
+							return true
+						}
+						for _, e := range s.Results {
+							visit(e, inLoop)
+						}
 					}
-				case *ast.AssignStmt:
-					for _, e := range s.Rhs {
-						visit(e)
-					}
-				case *ast.ReturnStmt:
-					for _, e := range s.Results {
-						visit(e)
-					}
-				}
-				return true
-			})
+					return true
+				})
+			}
+			walk(fd.Body, false)
 		})
 	}
 	var missing []string
